@@ -60,3 +60,8 @@ let put_res f = function Ok a -> L [A "ok"; f a] | Err e -> L [A "err"; put_exn 
 (* floats travel as 16 hex digits of their bits *)
 let get_float = function A s -> Int64.float_of_bits (Int64.of_string ("0x" ^ s)) | _ -> bad "float"
 let put_float f = A (Printf.sprintf "%016Lx" (Int64.bits_of_float f))
+
+(* oracle query to the harness: prints `?<sexp>` and reads one reply line *)
+let ask (q : Sx.t) : Sx.t =
+  print_string ("?" ^ Sx.to_string q); print_newline ();
+  Sx.parse (input_line stdin)
